@@ -295,6 +295,20 @@ def _add_rule_plumbing(acl: ast.ClassDef) -> str:
     _need(len(stores) == 1 and isinstance(stores[0].value, ast.Call) and _u(stores[0].value.func) == "ACLRule" and not stores[0].value.args,
           "one `self._acl[position] = ACLRule(…)` in add_rule")
     kws = [(k.arg, _u(k.value)) for k in stores[0].value.keywords]
+    # the accepted branch of add_rule: [log if the slot is occupied]; STORE (unconditionally); return True
+    guard = next((n for n in ast.walk(add) if isinstance(n, ast.If) and isinstance(n.test, ast.Compare) and len(n.test.ops) == 2
+                  and _u(n.test.comparators[0]) == "position"), None)
+    _need(guard is not None, "add_rule: `if 0 <= position < bound:`")
+    gb = list(guard.body)
+    shape = []
+    if gb and isinstance(gb[0], ast.If):
+        g0 = gb.pop(0)
+        _need(_u(g0.test) == "self._acl[position]" and not g0.orelse and len(g0.body) == 1 and isinstance(g0.body[0], ast.Expr)
+              and _u(g0.body[0].value).startswith("self.sys_log.info("), "add_rule: the occupied-slot test may only log")
+        shape.append("log-if-occupied")
+    _need(len(gb) == 2 and gb[0] is stores[0] and _u(gb[1]) == "return True",
+          "add_rule: the accepted branch must store the new rule unconditionally and return True")
+    shape += ["store", "return True"]
     rem = find_method(acl, "remove_rule")
     rstores = [n for n in ast.walk(rem) if isinstance(n, ast.Assign) and _u(n.targets[0]) == "self._acl[position]"]
     _need(len(rstores) == 1 and _u(rstores[0].value) == "None", "remove_rule stores None at the position")
@@ -338,6 +352,8 @@ def _add_rule_plumbing(acl: ast.ClassDef) -> str:
 def addRuleParams : List String := {_lean_list(params, _lean_str)}
 /-- `ACLRule(field=expr, …)` stored by `add_rule` -/
 def addRuleStores : List (String × String) := {_lean_list(kws, lambda kv: f"({_lean_str(kv[0])}, {_lean_str(kv[1])})")}
+/-- statements of the accepted branch of `add_rule` (the store is not under any condition) -/
+def addRuleBranch : List String := {_lean_list(shape, _lean_str)}
 /-- request handler `add_rule`: parameter ↦ (index into the request, sentinel that means None, how the value is wrapped) -/
 def requestLayout : List (String × Nat × String × String) := {_lean_list(layout, lambda x: f"({_lean_str(x[0])}, {x[1]}, {_lean_str(x[2])}, {_lean_str(x[3])})")}
 """
